@@ -23,6 +23,8 @@ func init() {
 			{"C19.NULL", "zzControlBadIsNilC19", true},
 			{"C19.CACHEKEY", "zzControlBad_C19_CACHEKEY", true},
 			{"C19.CACHEKEY", "zzControlGood_C19_CACHEKEY", false},
+			{"C19.MAKENEG", "zzControlBad_C19_MAKENEG", true},
+			{"C19.MAKENEG", "zzControlGood_C19_MAKENEG", false},
 		},
 	})
 }
@@ -37,6 +39,7 @@ func rulesC19(c *Ctx) {
 	c.Floor("C19.PAGING.COUNT", 1)
 	ruleComparators(c, "C19.CMP", "objectz", "compare")
 	ruleComparatorDirectionSet(c, "C19.CMPDIR", "objectz", "compare")
+	ruleMakeNonNeg(c, "C19.MAKENEG", "objectz")
 	c.Floor("C19.CMP", 5)
 	ruleIdTieBreak(c, "C19.TIEBREAK", p.SSAFunc(p.Method("objectz", "ObjectStore", "newRowComparator")))
 	ruleRowComparatorFirstNonZero(c, "C19.CMP", p.SSAFunc(p.Method("objectz", "compoundObjectComparator", "compare")))
